@@ -95,7 +95,7 @@ type machC struct {
 
 	// classification
 	reorgs, reinserted, evictions, probes, staleProbes, hitsBeforeReorg, cleans int
-	refProbedBeforeReorg                                                       map[common.Uint256]bool
+	refProbedBeforeReorg                                                        map[common.Uint256]bool
 }
 
 func (m *machC) log(f string, a ...any) { m.ops = append(m.ops, fmt.Sprintf(f, a...)) }
